@@ -2481,6 +2481,11 @@ char* dump_trace (int how) {
       break;
     }
 
+  /* An error raised while the frame was still being set up (the stack check of push_undefineds()): fp is
+   * still the caller's and the variables are not on the stack - there is nothing of this frame to show. */
+  if (num_arg != -1 && fp + num_arg + num_local - 1 > sp)
+    num_arg = -1;
+
   if ((how & DUMP_WITH_ARGS) && (num_arg != -1))
     {
       outbuffer_t outbuf;
@@ -2636,6 +2641,11 @@ array_t* get_svalue_trace (int how) {
   get_line_number_info (&file, &line);
   add_mapping_string (m, "file", file);
   add_mapping_pair (m, "line", line);
+
+  /* An error raised while the frame was still being set up (the stack check of push_undefineds()): fp is
+   * still the caller's and the variables are not on the stack - there is nothing of this frame to show. */
+  if (num_arg != -1 && fp + num_arg + num_local - 1 > sp)
+    num_arg = -1;
 
   if ((how & DUMP_WITH_ARGS) && (num_arg != -1))
     {
